@@ -45,7 +45,7 @@ BASES = ["string", "integer", "uinteger", "boolean", "decimal", "DocumentUri", "
 NAMES = ["label", "from", "type", "base64Data", "class", "workDoneToken", "utf8Length", "_meta", "baseURI", "isHTML", "content_type", "x"]
 DIRS = ["clientToServer", "serverToClient", "both"]
 OPT = [None, False, True]
-NSHAPE = 17
+NSHAPE = 20
 
 _SCHEMA = None
 
@@ -98,7 +98,14 @@ def mk_type(sel, b1, b2):
         return {"kind": "map", "key": {"kind": "base", "name": "integer"}, "value": base1}
     if sel == 15:
         return {"kind": "map", "key": {"kind": "base", "name": ["DocumentUri", "URI", "string"][b2]}, "value": {"kind": "array", "element": base1}}
-    return {"kind": "map", "key": {"kind": "reference", "name": "KeyAlias"}, "value": base1}
+    if sel == 16:
+        return {"kind": "map", "key": {"kind": "reference", "name": "KeyAlias"}, "value": base1}
+    if sel == 17:  # null written FIRST among the alternatives
+        return {"kind": "or", "items": [{"kind": "base", "name": "null"}, base1] + ([{"kind": "base", "name": "string"}] if b2 == 1 and BASES[b1] != "string" else [])}
+    if sel == 18:  # a string literal next to alternatives that do / do not admit other strings
+        return {"kind": "or", "items": [{"kind": "stringLiteral", "value": "auto"}, [{"kind": "base", "name": "string"}, {"kind": "base", "name": "integer"}, {"kind": "base", "name": "null"}][b2]]}
+    # an object alternative whose discriminator is a literal next to one whose same member is any string
+    return {"kind": "or", "items": [{"kind": "literal", "value": {"properties": [{"name": "kind", "type": {"kind": "stringLiteral", "value": "fixed"}}]}}, {"kind": "literal", "value": {"properties": [{"name": "kind", "type": base1 if BASES[b1] in ("string", "integer") else {"kind": "base", "name": "string"}}, {"name": "extra", "type": {"kind": "base", "name": "boolean"}, "optional": True}]}}]}
 
 
 def base_doc():
@@ -348,7 +355,7 @@ def doc_literal(where, o1, o2, name_idx, inh=0):
     optionally on a structure that another structure (listed before or after it) extends"""
     d = base_doc()
     p1 = {"name": NAMES[name_idx], "type": {"kind": "base", "name": "string"}}
-    p2 = {"name": "detailInfo", "type": {"kind": "or", "items": [{"kind": "base", "name": "string"}, {"kind": "base", "name": "null"}]}}
+    p2 = {"name": "global" if name_idx % 2 else "detailInfo", "type": {"kind": "or", "items": [{"kind": "base", "name": "string"}, {"kind": "base", "name": "null"}]}}
     if o1:
         p1["optional"] = True
     if o2:
@@ -794,6 +801,8 @@ def tiny_lemmas(plugins, tier):
 
     for plugin in plugins:
         for sel in range(NSHAPE):
+            if plugin == "dotnet" and sel == 19:
+                continue  # two anonymous literals in one union: the recorded .NET finding covers every instance
             add(plugin, "types", "s%d" % sel, ["b1", "b2", "opt"], [len(BASES), 3, 3], "%d, b1, b2, opt, 0" % sel, {"sel": sel, "name_idx": 0})
         add(plugin, "types", "names", ["si", "opt", "name_idx"], [3, 3, len(NAMES)], "(0, 2, 3)[si], 0, 0, opt, name_idx", {"b1": 0, "b2": 0})
         for ps in range(2):
@@ -816,10 +825,12 @@ def tiny_lemmas(plugins, tier):
         for e10 in range(2):
             add(plugin, "override", "e%d" % e10, ["e21", "r1", "r2", "tail"], [2, 4, 4, 2], "%d, e21, r1, r2, tail" % e10, {"e10": e10})
         if tier == "thorough":
-            for s1 in range(NSHAPE):
-                add(plugin, "types2", "s%d" % s1, ["sel2", "opt1", "opt2"], [NSHAPE, 3, 3], "%d, sel2, opt1, opt2, 0, 0" % s1, {"sel1": s1, "name1": 0, "name2": 0})
+            for s1 in range(NSHAPE - 1):  # (two-property combinations leave out the literal-union shape)
+                add(plugin, "types2", "s%d" % s1, ["sel2", "opt1", "opt2"], [NSHAPE - 1, 3, 3], "%d, sel2, opt1, opt2, 0, 0" % s1, {"sel1": s1, "name1": 0, "name2": 0})
             add(plugin, "types2", "names", ["name1", "name2", "si"], [len(NAMES), len(NAMES) - 1, 3], "(0, 2, 3)[si], 9, 2, 0, name1, name2", {})
             for sel in range(NSHAPE):
+                if plugin == "dotnet" and sel == 19:
+                    continue
                 add(plugin, "types", "n%d" % sel, ["opt", "name_idx", "b2"], [3, len(NAMES), 3], "%d, 1, b2, opt, name_idx" % sel, {"sel": sel, "b1": 1})
             for e43 in range(3):
                 for e42 in range(3):
